@@ -154,7 +154,7 @@ def realise(model, hashes):
         if kind not in ("sha256", "sha512"):
             continue
         buf = bytearray()
-        for b in h["in"]:
+        for b in (h.get("in") or []):
             if "c" in b:
                 buf.append(b["c"] & 0xff)
             elif "v" in b:
